@@ -374,8 +374,19 @@ def run_differential(ck, rng, thorough):
                     return
                 kind = type(e).__name__
                 if kind in ('Add', 'Sub', 'Fma') and not value.s and getattr(getattr(value, 'ctx', None), 'rm', None) == fp.RM.RTN:
-                    ops_ = [last.get(id(c)) for c in ((e.first, e.second) if kind != 'Fma' else (e.first, e.second, e.third))]
-                    if any(isinstance(o, fp.Float) and (o.isinf or o.isnan or not o.is_zero() or o.s) for o in ops_):
+                    # IEEE 754 6.3: under roundTowardNegative an exact zero sum is -0 unless both addends are +0
+                    def pz(o, flip=False):
+                        return isinstance(o, fp.Float) and not o.isnan and not o.isinf and o.is_zero() and (bool(o.s) != flip) is False
+                    x, y = last.get(id(e.first)), last.get(id(e.second))
+                    if kind == 'Add':
+                        both_plus = pz(x) and pz(y)
+                    elif kind == 'Sub':
+                        both_plus = pz(x) and pz(y, True)
+                    else:
+                        z = last.get(id(e.third))
+                        fin = all(isinstance(o, fp.Float) and not o.isnan and not o.isinf for o in (x, y))
+                        both_plus = fin and (x.is_zero() or y.is_zero()) and (bool(x.s) == bool(y.s)) and pz(z)
+                    if not both_plus:
                         flags.add(K_RTN0)
                 if kind in ('Neg', 'Mul') and value.s:
                     flags.add(K_NEGZERO_INT)
